@@ -193,6 +193,12 @@ def handleC11 (cmd : String) (args : List Sexp) : Option Sexp :=
       match t with
       | .node b n d _ _ => pure (.list [pdSx (toDict t), ptSx (fromDict b n d (toDict t))])
       | .leaf _ => none
+  -- (c11.namedtuple tree) -> (namedtuple structure, from_namedtuple(nt, batch_size / device of the root))
+  | "c11.namedtuple", [t] => do
+      let t ← pt? t
+      match t with
+      | .node b _ d _ _ => pure (.list [pdSx (toNamedtuple t), ptSx (fromNamedtuple b d (toNamedtuple t))])
+      | .leaf _ => none
   -- (c11.lazyfrom ((key v)…)) -> members in stack order, or none
   | "c11.lazyfrom", [.list d] => do
       let d ← d.mapM fun p => match p with
